@@ -513,7 +513,7 @@ func (s *oplSpell) renderDoc(nss []*oplNSDecl, fl *oplFlags, allowArrayComma boo
 
 var oplBadUTF8 = []string{"\xff", "\xc3", "\xe2\x82", "\xf0\x9f\x98", "\xed\xa0\x80", "\xc0\x80", "\xf4\x90\x80\x80", "\x80", "\xbf\xbf", "\xfe\xff", "\xe0\x80\x80", "\xf8\x88\x80\x80\x80"}
 var oplGoodUTF8 = []string{"é", "€", "😀", " ", "ü", " ", "�", "\n", "\r\n", "\n\n"}
-var oplFragments = []string{"(((((((((((((((((((((((((", "}}}}}}}}}}}}}}}}}}}}}", "([{<>}])([{<>}])([{<>}])", ">>>>>>>>>>>>>>>>>>>>>>)[]", "/*", "*/", "//", "\"", "'", "(", ")", "!", "!(", "((((((((((((", "))", "{", "}", "[", "]", "<", ">", "=>", "=", "||", "&&", "|", "&", ",", ";", ":", ".", "#", "\x00", "class", "this", "ctx", "related", "permits", "Array", "SubjectSet", "implements", "Namespace", "traverse", "includes", "subject", "0", "9x", "$", "\\", "`"}
+var oplFragments = []string{"(((((((((((((((((((((((((", "}}}}}}}}}}}}}}}}}}}}}", "([{<>}])([{<>}])([{<>}])", ">>>>>>>>>>>>>>>>>>>>>>)[]", "/*", "*/", "//", "\"", "'", "(", ")", "!", "!(", "((((((((((((", "))", "{", "}", "[", "]", "<", ">", "=>", "=", "||", "&&", "|", "&", ",", ";", ":", ".", "#", "\x00", "\x7f", "\x7f\x7f", "~", "\x01", "\x1f", "@", "^", "class", "this", "ctx", "related", "permits", "Array", "SubjectSet", "implements", "Namespace", "traverse", "includes", "subject", "0", "9x", "$", "\\", "`"}
 
 func oplMutate(r *rand.Rand, doc string) (string, string) {
 	b := []byte(doc)
